@@ -176,10 +176,9 @@ def otok(x_s):
 
 
 def ts_probe(zone, rec, ts):
-  e = {"t": ttok(ts), "b": "", "off": "", "c": [""], "loc": "", "exc": ""}
+  e = {"t": ttok(ts), "b": "", "off": "", "c": [""], "exc": ""}
   try:
     dt = moment.ts_to_dt(ts, zone)
-    e["loc"] = dt.replace(tzinfo=None).isoformat()
     e["b"] = ttok(moment.dt_to_ts(dt))
     e["off"] = otok(west_offset_s(ts, dt))
     e["c"] = [otok(rec.offsets[raw_index(rec.untils, ts * 1000.0)] * 60)]
@@ -190,11 +189,10 @@ def ts_probe(zone, rec, ts):
 
 def loc_probe(zone, rec, local_ms, fav):
   """fav: None or an offset of the record (minutes west)."""
-  e = {"l": "", "f": "none" if fav is None else otok(fav * 60), "ms": ttok(local_ms), "ts": "", "off": "",
-       "c": [""], "ex": 0, "exc": ""}
+  e = {"ms": ttok(local_ms), "f": "none" if fav is None else otok(fav * 60), "ts": "", "off": "", "c": [""],
+       "ex": 0, "exc": ""}
   try:
     naive = EPOCH + datetime.timedelta(milliseconds=local_ms)
-    e["l"] = naive.isoformat()
     if fav is None:
       ts = moment.dt_to_ts(naive, zone)
     else:
